@@ -1,2 +1,202 @@
-(* C11 — placeholder while the machinery is being built *)
-From GV Require Import Lib.Trace Model.LList.
+(* C11 — linkedlist.Buffer is a FIFO byte queue of copied segments.
+   Statements only; the model is Model/LList.v, the FIFO specification is
+   Spec/LListSpec.v, proofs live in Proofs/LListProofs.v.
+
+   Reading guide.  [run_world os init_world] runs a finite list of caller-level
+   operations on a fresh buffer and returns (answers, final world); a world is
+   the buffer plus the caller's own byte buffers ("cells").  [vcontent w] is
+   the list of byte values a non-consuming look at the whole buffer shows.
+   [op_ok] only demands len(p) >= 0 for Read and non-negative counts in
+   reader / writer scripts (the io.Reader / io.Writer contract).  Every
+   statement below quantifies over ALL finite operation lists, segment sizes,
+   amounts and scripts. *)
+From Coq Require Import Lia.
+From GV Require Import Lib.Trace Model.LList Spec.LListSpec Proofs.LListProofs.
+Open Scope list_scope.
+Open Scope Z_scope.
+
+(* ---- llist_refines_fifo ------------------------------------------------ *)
+
+(* On stored (symbolic) bytes: every run of the model from the empty buffer is
+   a run of the FIFO byte queue with the same answers; the queue is
+   [concat segs].  Hence FIFO order, each byte at most once, only
+   Read/Pop/Discard/WriteTo/Reset consume, Peek/PeekWithBytes do not. *)
+Theorem C11_llist_refines_fifo : forall bos, Forall bop_ok bos ->
+  fifo_run id [] bos (fst (run_buffer bos empty_buffer))
+           (List.concat (segs (snd (run_buffer bos empty_buffer)))).
+Proof. exact llist_refines_fifo_empty. Qed.
+Print Assumptions C11_llist_refines_fifo.
+
+(* On byte values, with the caller's memory: every run is a run of the FIFO
+   over [list Z] in which a caller write to a buffer passed to PushBack /
+   PushFront leaves the queue unchanged. *)
+Theorem C11_llist_refines_fifo_values : forall os, Forall op_ok os ->
+  wfifo_run [] [] os (fst (run_world os init_world))
+            (cells (snd (run_world os init_world)))
+            (map (deref (cells (snd (run_world os init_world))))
+                 (List.concat (segs (buf (snd (run_world os init_world)))))).
+Proof. exact world_refines_fifo_init. Qed.
+Print Assumptions C11_llist_refines_fifo_values.
+
+(* The observable operations spelled out (q = the bytes pushed and not yet
+   consumed, in queue order, after ANY history os). *)
+Theorem C11_read_exact : forall os, Forall op_ok os -> forall n, 0 <= n ->
+  let w := snd (run_world os init_world) in
+  let q := vcontent w in
+  snd (step w (OBuf (BRead n))) =
+    OutRead (Z.min n (zlen q)) (if (0 <? n) && (zlen q =? 0) then EEOF else ENil) (ztake n q) /\
+  vcontent (fst (step w (OBuf (BRead n)))) = zdrop n q.
+Proof. exact read_exact. Qed.
+Print Assumptions C11_read_exact.
+
+Theorem C11_peek_exact : forall os, Forall op_ok os -> forall n,
+  let w := snd (run_world os init_world) in
+  let q := vcontent w in
+  exists e bss, snd (step w (OBuf (BPeek n))) = OutPeek (Ret (e, bss)) /\
+    vcontent (fst (step w (OBuf (BPeek n)))) = q /\
+    ((n <= 0 \/ n = MaxInt32) -> e = ENil /\ List.concat bss = ztake MaxInt32 q) /\
+    (0 < n <= zlen q -> n <> MaxInt32 -> e = ENil /\ List.concat bss = ztake n q) /\
+    (zlen q < n -> n <> MaxInt32 -> e = EShortBuf /\ bss = []).
+Proof. exact peek_exact. Qed.
+Print Assumptions C11_peek_exact.
+
+Theorem C11_pop_exact : forall os, Forall op_ok os ->
+  let w := snd (run_world os init_world) in
+  let q := vcontent w in
+  (q = [] /\ snd (step w (OBuf BPop)) = OutPop None /\ vcontent (fst (step w (OBuf BPop))) = []) \/
+  (exists s, s <> [] /\ snd (step w (OBuf BPop)) = OutPop (Some s) /\
+             q = s ++ vcontent (fst (step w (OBuf BPop)))).
+Proof. exact pop_exact. Qed.
+Print Assumptions C11_pop_exact.
+
+Theorem C11_discard_exact : forall os, Forall op_ok os -> forall n,
+  let w := snd (run_world os init_world) in
+  let q := vcontent w in
+  snd (step w (OBuf (BDiscard n))) = OutDiscard (Z.max 0 (Z.min n (zlen q))) /\
+  vcontent (fst (step w (OBuf (BDiscard n)))) = zdrop n q.
+Proof. exact discard_exact. Qed.
+Print Assumptions C11_discard_exact.
+
+(* WriteTo: the writer receives a prefix of the queue, exactly that prefix
+   leaves the queue (nothing is lost when the writer fails or writes short
+   inside a node), the count is its length, nil error means everything. *)
+Theorem C11_writeto_exact : forall os, Forall op_ok os -> forall sc, script_ok sc ->
+  let w := snd (run_world os init_world) in
+  let q := vcontent w in
+  exists k e, snd (step w (OBuf (BWriteTo sc))) = OutWriteTo (Ret (k, e, ztake k q)) /\
+    vcontent (fst (step w (OBuf (BWriteTo sc)))) = zdrop k q /\
+    0 <= k <= zlen q /\ (e = ENil -> k = zlen q).
+Proof. exact writeto_exact. Qed.
+Print Assumptions C11_writeto_exact.
+
+Theorem C11_push_exact : forall os, Forall op_ok os -> forall p,
+  let w := snd (run_world os init_world) in
+  let q := vcontent w in
+  vcontent (fst (step w (OPushBack p))) = q ++ p /\
+  vcontent (fst (step w (OPushFront p))) = p ++ q /\
+  vcontent (fst (step w (OAppend p))) = q ++ p.
+Proof. exact push_exact. Qed.
+Print Assumptions C11_push_exact.
+
+(* ---- llist_counters ----------------------------------------------------- *)
+Theorem C11_llist_counters : forall os, Forall op_ok os ->
+  let w := snd (run_world os init_world) in
+  Buffered (buf w) = zlen (vcontent w) /\
+  Buffered (buf w) = zlen (List.concat (segs (buf w))) /\
+  Len (buf w) = zlen (segs (buf w)).
+Proof. exact llist_counters. Qed.
+Print Assumptions C11_llist_counters.
+
+(* ---- llist_isempty_iff -------------------------------------------------- *)
+Theorem C11_llist_isempty_iff : forall os, Forall op_ok os ->
+  let w := snd (run_world os init_world) in
+  IsEmpty (buf w) = true <-> Buffered (buf w) = 0.
+Proof. exact llist_isempty_iff. Qed.
+Print Assumptions C11_llist_isempty_iff.
+
+(* ---- pushback_copies ---------------------------------------------------- *)
+(* After any history os the caller passes a buffer holding p to PushBack or
+   PushFront, anything os1 happens, then the caller overwrites byte i of that
+   buffer with v: the queue is unchanged, and every answer of every later
+   operation list os2 and the final queue are the same as without the write. *)
+Theorem C11_pushback_copies : forall (push : list Z -> op) os p os1 i v os2,
+  push = OPushBack \/ push = OPushFront ->
+  Forall op_ok os -> Forall op_ok os1 -> Forall op_ok os2 ->
+  let w0 := snd (run_world os init_world) in
+  let c := zlen (cells w0) in
+  let w := snd (run_world (push p :: os1) w0) in
+  let wm := fst (step w (OMut c i v)) in
+  vcontent wm = vcontent w /\
+  fst (run_world os2 wm) = fst (run_world os2 w) /\
+  vcontent (snd (run_world os2 wm)) = vcontent (snd (run_world os2 w)).
+Proof. exact pushback_copies. Qed.
+Print Assumptions C11_pushback_copies.
+
+(* the same for any caller buffer that was not handed over with Append *)
+Theorem C11_copied_cell_writes_invisible : forall os c i v os2, Forall op_ok os -> Forall op_ok os2 ->
+  let w := snd (run_world os init_world) in
+  aliased_cell (cells w) c = false ->
+  let wm := fst (step w (OMut c i v)) in
+  buf wm = buf w /\ vcontent wm = vcontent w /\
+  fst (run_world os2 wm) = fst (run_world os2 w) /\
+  vcontent (snd (run_world os2 wm)) = vcontent (snd (run_world os2 w)).
+Proof. exact copied_cell_writes_invisible. Qed.
+Print Assumptions C11_copied_cell_writes_invisible.
+
+(* ---- readfrom_stores_all ------------------------------------------------ *)
+(* [reader_run sc src] = (every byte the reader returned, including those
+   returned together with EOF or with an error; the error to report).
+   ReadFrom appends exactly those bytes and reports exactly their number. *)
+Theorem C11_readfrom_stores_all : forall os src sc, Forall op_ok os -> script_ok sc ->
+  let w := snd (run_world os init_world) in
+  let w' := fst (step w (OBuf (BReadFrom src sc))) in
+  let returned := fst (reader_run sc src) in
+  snd (step w (OBuf (BReadFrom src sc))) = OutReadFrom (Ret (zlen returned, snd (reader_run sc src))) /\
+  vcontent w' = vcontent w ++ returned /\
+  Buffered (buf w') = Buffered (buf w) + zlen returned.
+Proof. exact readfrom_stores_all. Qed.
+Print Assumptions C11_readfrom_stores_all.
+
+(* ---- no panic ----------------------------------------------------------- *)
+Theorem C11_llist_no_panic : forall os, Forall op_ok os ->
+  Forall (fun o => is_panic o = false) (fst (run_world os init_world)).
+Proof. exact llist_no_panic. Qed.
+Print Assumptions C11_llist_no_panic.
+
+(* ---- non-vacuity -------------------------------------------------------- *)
+(* A history satisfying the hypotheses that reaches: a node consumed in part
+   (re-slice + pushFront), an aliased Append node whose caller write IS
+   visible, a PushBack node whose caller write is NOT, data returned together
+   with EOF, and a writer failing after a partial transfer. *)
+Definition C11_ex_ops : list op :=
+  [ OPushBack [1;2;3]; OAppend [4;5]; OMut 0 0 9; OMut 1 0 7; OBuf (BRead 2);
+    OBuf (BReadFrom [10;11;12] [(2, ENil); (5, EEOF)]);
+    OBuf (BWriteTo [(1, EOther)]); OBuf (BWriteTo [(1, EOther)]); OBuf (BPeek (-1)) ].
+
+Example C11_ex_ok : Forall op_ok C11_ex_ops.
+Proof. repeat constructor; cbn; lia. Qed.
+
+Example C11_ex_run :
+  fst (run_world C11_ex_ops init_world) =
+  [ OutNone; OutNone; OutNone; OutNone; OutRead 2 ENil [1;2];
+    OutReadFrom (Ret (3, ENil));
+    OutWriteTo (Ret (1, EOther, [3])); OutWriteTo (Ret (1, EOther, [7]));
+    OutPeek (Ret (ENil, [[5]; [10;11]; [12]])) ] /\
+  vcontent (snd (run_world C11_ex_ops init_world)) = [5;10;11;12] /\
+  Len (buf (snd (run_world C11_ex_ops init_world))) = 3 /\
+  Buffered (buf (snd (run_world C11_ex_ops init_world))) = 4.
+Proof. vm_compute. repeat split. Qed.
+
+(* hypotheses of pushback_copies / copied_cell_writes_invisible are satisfiable *)
+Example C11_ex_copied :
+  aliased_cell (cells (snd (run_world C11_ex_ops init_world))) 0 = false /\
+  aliased_cell (cells (snd (run_world C11_ex_ops init_world))) 1 = true.
+Proof. vm_compute. split; reflexivity. Qed.
+
+(* reader_run on data+EOF, error after partial transfer, (0,nil), 512-byte cap *)
+Example C11_ex_reader :
+  reader_run [(3, EEOF)] [1;2;3] = ([1;2;3], ENil) /\
+  reader_run [(0, ENil); (2, EOther)] [1;2;3] = ([1;2], EOther) /\
+  reader_run [(1, ENil)] [1;2;3] = ([1], ENil) /\
+  zlen (fst (reader_run [(1000, ENil); (1000, EEOF)] (repeat 7 600))) = 600.
+Proof. vm_compute. repeat split. Qed.
